@@ -185,6 +185,13 @@ theorem Inv_congr {c : Conf} {s s' : State} (h : Inv c s)
   · rw [h1, h5]; exact h.idLt
   · rw [h6]; exact h.disk
 
+theorem Inv_emptied {c : Conf} {s : State} (h : Inv c s) :
+    Inv c { State.init with nextId := s.nextId, now := s.now, disk := s.disk } := by
+  constructor <;> simp [State.init]
+  exact h.disk
+
+theorem resetAll_inv {c : Conf} {s : State} (h : Inv c s) : Inv c (resetAll s) := Inv_store (Inv_emptied h)
+
 theorem reorderDisk_spec (d : List DLease) (s : State) :
     (reorderDisk d s).leases = s.leases ∧ (reorderDisk d s).bits = s.bits ∧ (reorderDisk d s).ips = s.ips ∧
     (reorderDisk d s).hosts = s.hosts ∧ (reorderDisk d s).nextId = s.nextId ∧ (reorderDisk d s).now = s.now ∧
